@@ -46,7 +46,7 @@ Qed.
 Lemma not_translatable_iff : forall l r,
   not_translatable [l; r] = true <-> n_transl l = Some s_false \/ n_transl r = Some s_false.
 Proof.
-  intros l r. unfold not_translatable. simpl. rewrite orb_false_r, orb_true_iff.
+  intros l r. unfold not_translatable. cbn [existsb]. rewrite orb_false_r, orb_true_iff.
   assert (H : forall n, match n_transl n with Some v => str_eqb v s_false | None => false end = true
                         <-> n_transl n = Some s_false).
   { intro n. destruct (n_transl n) as [v|].
@@ -58,7 +58,7 @@ Qed.
 Lemma no_at_string_iff : forall n,
   no_at_string [n] = true <-> exists rest, text_content n = s_at_string ++ rest.
 Proof.
-  intro n. unfold no_at_string. simpl. rewrite orb_false_r. apply starts_with_iff.
+  intro n. unfold no_at_string. cbn [existsb]. rewrite orb_false_r. apply starts_with_iff.
 Qed.
 
 (* ---- non_simple_data ------------------------------------------------------------------------ *)
